@@ -11,6 +11,7 @@ Forward dataflow over the statement CFG of each function, tags per variable:
   ("o", S)  the string S itself or a slice of it (offset-preserving: positions map back by adding the slice start)
   ("x", S)  a string derived from S through a length-changing transformation
   ("ix", S) a number measured on an ("x", S) string
+  ("p", S)  a number measured on S itself (harmless; it becomes "ix" when S turns out to be a transformed argument of a callee)
 A violation is `V[...bound...]` where V carries ("o", S) and the bound carries ("ix", S).  Calls of package functions
 use return summaries computed by the same analysis (which parameter the result is a view / a transformation / a
 position-in-a-transformation of, also when the transformation is a callable passed as an argument, e.g.
@@ -85,11 +86,13 @@ class Coord(object):
     def _ix(self, ts):
         out = set()
         for t in ts:
-            if t[0] == "x":
+            if t[0] == "o":
+                out.add(("p", t[1]))
+            elif t[0] == "x":
                 out.add(("ix", t[1]))
             elif t[0] == "xk":
                 out.add(("ixk", t[1], t[2]))
-            elif t[0] in ("ix", "ixk"):
+            elif t[0] in ("ix", "ixk", "p"):
                 out.add(t)
         return frozenset(out)
 
@@ -118,9 +121,9 @@ class Coord(object):
             if en == "builtins.len" and argt:
                 return self._ix(argt[0])
             if en in ("builtins.range",) and argt:
-                return _u(*[frozenset(t for t in a if t[0] in ("ix", "ixk")) for a in argt])
+                return _u(*[frozenset(t for t in a if t[0] in ("ix", "ixk", "p")) for a in argt])
             if en in ("builtins.min", "builtins.max", "builtins.abs", "builtins.int", "builtins.sum") and argt:
-                return _u(*[frozenset(t for t in a if t[0] in ("ix", "ixk")) for a in argt])
+                return _u(*[frozenset(t for t in a if t[0] in ("ix", "ixk", "p")) for a in argt])
             if en in KEEP_FUNCS and argt:
                 return argt[0]
             if en in XF_FUNCS and argt:
@@ -144,6 +147,9 @@ class Coord(object):
                     out |= set(self._xf(at))
                 elif t[0] == "ix":
                     out |= set(("ix", x[1]) for x in at if x[0] in ("o", "x"))
+                elif t[0] == "p":
+                    # measured on the parameter as given: a position in the transformed copy when the argument is one
+                    out |= set(("ix", x[1]) if x[0] == "x" else ("p", x[1]) for x in at if x[0] in ("o", "x"))
                 elif t[0] in ("xk", "ixk"):
                     kexpr = kwexpr.get(t[2], posexpr.get(t[2]))
                     ken = prog.ext_name(kexpr, kexpr) if isinstance(kexpr, (ast.Name, ast.Attribute)) else None
@@ -272,7 +278,7 @@ class Coord(object):
             self.in_progress.discard(id(fi))
             self._returns = saved
         pn = set(fi.params())
-        summ = frozenset(t for t in rets if t[0] in ("o", "x", "ix", "xk", "ixk") and t[1] in pn)
+        summ = frozenset(t for t in rets if t[0] in ("o", "x", "ix", "p", "xk", "ixk") and t[1] in pn)
         self.summaries[id(fi)] = summ
         return summ
 
